@@ -33,6 +33,10 @@ class Gen:
             choices+=['bin']*4+['logical','unary','cond']
             if any(k!='const' for n,k in sc['names']): choices+=['assign','update','lassignv']
             if getattr(self,'objects',False) and vars_: choices+=['lassignm']
+            if getattr(self,'ext2',True):
+                choices+=['tmpl']
+                if vars_: choices+=['cassignv']
+                if getattr(self,'objects',False): choices+=['ochain','spreadlit']+(['cassignm'] if vars_ else [])
             if sc['funcs']: choices+=['call']*2
             if d>1: choices+=['func']
         if getattr(self,'orders',False) and d>0: choices+=['order']*2
@@ -96,6 +100,23 @@ class Gen:
         if c=='lassignv':
             n=r.choice([n for n,k in sc['names'] if k!='const'])
             return b.add(ty='lassignv', op=r.choice(['||=','&&=','??=','??=']), name=n, a=self.expr(sc,d-1))
+        if c=='cassignv':
+            n=r.choice([n for n,k in sc['names'] if k!='const'] if (r.random()<0.93 and any(k!='const' for n,k in sc['names'])) else vars_)
+            return b.add(ty='cassignv', op=r.choice(['+','+','-','*','%']), name=n, a=self.expr(sc,d-1))
+        if c=='cassignm':
+            return b.add(ty='cassignm', op=r.choice(['+','+','-','*','%']), a=b.add(ty='var', name=r.choice(vars_)), key=cs(r.choice(['a','b','k1','0','1'])), c=self.expr(sc,d-1))
+        if c=='tmpl':
+            n=r.choice([1,1,2,3])
+            return b.add(ty='tmpl', quasis=[cs(r.choice(['','','a','-',' ','x1'])) for _ in range(n+1)], xs=[self.expr(sc,d-1) for _ in range(n)])
+        if c=='ochain':
+            base=b.add(ty='var', name=r.choice(vars_)) if (vars_ and r.random()<0.7) else self.expr(sc,d-1)
+            return b.add(ty='ochain', a=base, keys=[cs(r.choice(['a','b','k1','0','1','length'])) for _ in range(r.choice([1,1,2]))])
+        if c=='spreadlit':
+            xs=[]
+            for _ in range(r.choice([1,2,3])):
+                e=self.expr(sc,d-1)
+                xs.append(b.add(ty='spread', a=e) if r.random()<0.6 else e)
+            return b.add(ty='arrlit', xs=xs)
         if c=='lassignm':
             return b.add(ty='lassignm', op=r.choice(['||=','&&=','??=','??=']), a=b.add(ty='var', name=r.choice(vars_)), key=cs(r.choice(['a','b','k1','0','1'])), c=self.expr(sc,d-1))
         if c=='update':
@@ -212,6 +233,7 @@ class Gen:
         r=self.r; b=self.b
         if len(b.nodes) > self.limit: d=0
         ch=['log']*4+['decl']*3+['expr']*2
+        if getattr(self,'ext2',True) and getattr(self,'objects',False): ch+=['ddecl']
         if d>0: ch+=['if']*2+['while']*2+['block','try','try','funcdecl','labeled','dowhile']
         if d>0 and getattr(self,'forswitch',True): ch+=['for']*2+['switch']*2+['lloop']
         if d>0 and getattr(self,'objects',False): ch+=['forof']*2
@@ -236,6 +258,27 @@ class Gen:
             n=b.add(ty='decl', kind=kind, name=name, a=init)
             self.bind(sc, name, kind)
             return n
+        if c=='ddecl':
+            kind=r.choice(['let','let','const','var'])
+            shape=r.choice(['arr','obj'])
+            src=self.expr(sc,2)       # generated BEFORE the names are bound (a reference to a shadowed name is a dead-zone access)
+            n=r.choice([1,2,2,3]); names=[]; keys=[]; defs=[]
+            hasrest=1 if (n>1 and r.random()<0.3) else 0
+            for j in range(n):
+                sh=self.shadow(sc) if (kind!='var' and sc.get('nested') and not names) else None
+                names.append(sh or self.fresh())
+            for j,nm in enumerate(names):
+                isrest=hasrest and j==n-1
+                if shape=='obj' and not isrest: keys.append(cs(r.choice(['a','b','k1','0','1','length'])))
+                # default initialisers see the names bound before them
+                if not isrest and r.random()<0.35:
+                    inner=self.child(sc); inner['funcs']=[]
+                    for q in names[:j]: self.bind(inner, q, 'let')
+                    save=getattr(self,'orders',False); self.orders=False
+                    defs.append(self.expr(inner,1)); self.orders=save
+                else: defs.append(0)
+            for nm in names: self.bind(sc, nm, kind)
+            return b.add(ty='ddecl', kind=kind, shape=shape, names=names, keys=keys, defs=defs, rest=hasrest, a=src)
         if c=='if':
             t=b.add(ty='block', xs=self.stmts(self.child(sc), d-1, r.randint(1,2)))
             e=b.add(ty='block', xs=self.stmts(self.child(sc), d-1, r.randint(1,2))) if r.random()<0.5 else 0
@@ -402,6 +445,13 @@ def pr(P, n, ind=0):
     if t=='typeofvar': return f"(typeof {d['name']})"
     if t=='assign': return f"({d['name']} = {E(d['a'])})"
     if t=='lassignv': return f"({d['name']} {d['op']} {E(d['a'])})"
+    if t=='cassignv': return f"({d['name']} {d['op']}= {E(d['a'])})"
+    if t=='cassignm': return f"(({E(d['a'])})[{json.dumps(''.join(chr(c) for c in d['key']))}] {d['op']}= {E(d['c'])})"
+    if t=='tmpl':
+        def q(codes): return ''.join(chr(c) for c in codes).replace('\\','\\\\').replace('`','\\`').replace('$','\\$')
+        return '`' + q(d['quasis'][0]) + ''.join('${' + E(x) + '}' + q(d['quasis'][i+1]) for i,x in enumerate(d['xs'])) + '`'
+    if t=='ochain': return f"(({E(d['a'])})?." + ''.join('['+json.dumps(''.join(chr(c) for c in k))+']' for k in d['keys']) + ")"
+    if t=='spread': return f"...{E(d['a'])}"
     if t=='lassignm': return f"(({E(d['a'])})[{json.dumps(''.join(chr(c) for c in d['key']))}] {d['op']} {E(d['c'])})"
     if t=='bin':
         r=f"({E(d['a'])} {d['op']} {E(d['b'])})"
@@ -475,6 +525,16 @@ def pr(P, n, ind=0):
         s=f"{I}if ({E(d['a'])}) {pr(P,d['b'],ind)}"
         if d['c']: s+=f" else {pr(P,d['c'],ind)}"
         return s+"\n"
+    if t=='ddecl':
+        parts=[]
+        for j,nm in enumerate(d['names']):
+            isrest=d['rest'] and j==len(d['names'])-1
+            if isrest: parts.append('...'+nm); continue
+            dflt=(' = '+E(d['defs'][j])) if d['defs'][j] else ''
+            if d['shape']=='arr': parts.append(nm+dflt)
+            else: parts.append(json.dumps(''.join(chr(c) for c in d['keys'][j]))+': '+nm+dflt)
+        pat=('['+', '.join(parts)+']') if d['shape']=='arr' else ('{ '+', '.join(parts)+' }')
+        return f"{I}{d['kind']} {pat} = {E(d['a'])};\n"
     if t=='for':
         if d['init'] and P['nodes'][d['init']-1]['ty']=='decl':
             di=P['nodes'][d['init']-1]; h=f"{di['kind']} {di['name']}" + (f" = {E(di['a'])}" if di['a'] else '')
